@@ -63,7 +63,7 @@ PROPS["C13"] = {
                   "for every call sequence (code_refines, code_is_machine) and every clause (code_at_most_one_status, "
                   "code_status_before_body, code_status_truthful, code_size_truthful, code_written_iff, code_head_no_body). When the "
                   "source leaves the translated subset or the refinement no longer checks, the evidence says so and the "
-                  "correspondence, run at thorough depth, is the tie that decides.",
+                  "correspondence, run over four seeds instead of one, is the tie that decides.",
     "level_note": "Trusted: Lean kernel; the translator of method bodies (gocode.go) and its conventions (Code/GoSem.lean: environment objects answer arbitrarily, hooks are observers, integers do not wrap); the hand-written machine is additionally tied by differential testing; codes 100..999.",
     "props_modules": ["Flamego.Props.C13", "Flamego.Props.C13Nest", "Flamego.Props.C13Late"],
     "code_modules": ["Flamego.Props.C13Code"],
@@ -386,7 +386,7 @@ PROPS["C18"] = {
                   "equal to the model's accessor for every context, name and variadic default (…_refines), hence the property's one rule "
                   "of the code's own bodies (code_…_rule), that no accessor changes the context (code_accessors_pure), and the cookie round trip from the bodies of SetCookie and Cookie themselves (setCookie_refines, code_cookie_roundtrip). When the "
                   "source leaves the translated subset or a refinement no longer checks, the evidence says so and the correspondence, "
-                  "run at thorough depth, decides.",
+                  "run over four seeds instead of one, decides.",
     "level_note": "Trusted: Lean kernel; the translator of method bodies and the library models of Code/LibHTTP.lean (the hand-written model is additionally tied by differential testing); strconv.ParseFloat is a parameter "
                   "(answered by Go at run time, only `ParseFloat(\"\") = 0` is assumed); strconv.IntSize = 64; dispatch of the two "
                   "harness routes is C01/C02's subject. Three clauses hold only in a weaker form on the unchanged code "
@@ -1242,7 +1242,7 @@ for _pid in ("C07", "C10"):
         "says so), code_one_chain, code_shortcut_unobservable (for every history of registrations: what the body does is what full tree "
         "matching alone decides) and agrees_of (the agreement holds for the tables built from the model router in the Go struct's "
         "shape). When the source leaves the translated subset or a proof no longer checks, the evidence says so and the "
-        "correspondence, run at thorough depth, decides.")
+        "correspondence, run over four seeds instead of one, decides.")
     PROPS[_pid]["trusted_base"] = PROPS[_pid]["trusted_base"] + [
         "code-level tie: the Go→Lean translator of method bodies (translator/gocode.go, routercode.go), Code/GoSem.lean, "
         "Code/LibRoute.lean (a route.Leaf / route.Tree stands for the model's leaf / tree; `world` is a field added to record which "
@@ -1257,7 +1257,7 @@ PROPS["C04"]["level_text"] = PROPS["C04"]["level_text"] + (
     "parent's answer, the zero Value without a parent; registrations untouched), chain_in_valueSet (with every parent answering what the "
     "code's own Value returns on it, the result is an element of the model's valueSet for the chain, zero exactly when that is empty), "
     "code_nearest_exact, code_implementor_before_parent, set_refines (Set = register for every lookup). When the source leaves the "
-    "translated subset or a proof no longer checks, the evidence says so and the correspondence, run at thorough depth, decides.")
+    "translated subset or a proof no longer checks, the evidence says so and the correspondence, run over four seeds instead of one, decides.")
 PROPS["C04"]["trusted_base"] = PROPS["C04"]["trusted_base"] + [
     "code-level tie: the Go→Lean translator of method bodies (translator/gocode.go, injectcode.go), Code/GoSem.lean (a Go map as an "
     "association list with one entry per key; the order of `range` over it is whatever order the run took) and Code/LibReflect.lean; "
@@ -1271,7 +1271,7 @@ PROPS["C17"]["level_text"] = PROPS["C17"]["level_text"] + (
     "plainText_refines, json_refines, xml_refines (the calls a body makes are exactly Model/Render's renderOps, for the encoder that "
     "did what the environment's encoder did) and carries the clauses over (code_binary, code_plainText, code_json, code_xml: status "
     "sent once and first, the table's Content-Type, payload verbatim / exactly the encoder's output). When the source leaves the "
-    "translated subset or a proof no longer checks, the evidence says so and the correspondence, run at thorough depth, decides.")
+    "translated subset or a proof no longer checks, the evidence says so and the correspondence, run over four seeds instead of one, decides.")
 PROPS["C17"]["trusted_base"] = PROPS["C17"]["trusted_base"] + [
     "code-level tie: the Go→Lean translator of method bodies (translator/gocode.go, rendercode.go) and Code/GoSem.lean; what an "
     "encoder writes and whether it fails is the environment's (a parameter, as in the model); the text of an error is a parameter"]
@@ -1283,7 +1283,7 @@ PROPS["C09"]["level_text"] = PROPS["C09"]["level_text"] + (
     "proves match_refines (the generated Match = the model's hdrPairsOK when the header set is read through Header.Get), match_iff "
     "(true exactly when every constrained header has a non-empty first value its expression finds), match_order_irrelevant (the "
     "order in which the map is ranged over cannot matter) and match_pure. When the source leaves the translated subset or a "
-    "proof no longer checks, the evidence says so and the correspondence, run at thorough depth, decides.")
+    "proof no longer checks, the evidence says so and the correspondence, run over four seeds instead of one, decides.")
 PROPS["C09"]["trusted_base"] = PROPS["C09"]["trusted_base"] + [
     "code-level tie: the Go→Lean translator of method bodies (translator/gocode.go, headercode.go); Header.Get as modelled in "
     "Code/LibHTTP.lean (first value of the key; canonicalisation of the key is net/http's and arrives with the request lines)"]
